@@ -61,6 +61,54 @@ fn accepted(bytes: &[u8], stats: &mut Stats) -> bool {
     }
 }
 
+/// A file with more term records than a 16-bit index addresses (see `bulk_facts`): decoded and
+/// compared term by term with the facts; cuts at the section boundaries and near the end, one
+/// appended byte.
+pub fn check_bulk(n: u32, mult: u32, v: u8, style: u8, stats: &mut Stats) -> CheckResult {
+    ensure!((1..=3).contains(&v), "harness/bad-case", "version must be 1..=3");
+    let facts = super::common::bulk_facts(n, mult, 25);
+    let expected = restrict_to_version(&facts, v);
+    let bytes = encode_styled(&facts, v, style);
+    let ont = match decode(&bytes) {
+        Decoded::Ok(o) => *o,
+        Decoded::Err(e) => return fail(format!("valid-file-rejected/v{v}/bulk"), format!("from_bytes of a well-formed v{v} file with {n} terms = Err({e}); {} bytes", bytes.len())),
+        Decoded::Panic(p) => return fail(format!("valid-file-panics/v{v}/bulk"), format!("from_bytes of a well-formed v{v} file with {n} terms panicked: {p}")),
+    };
+    stats.eval(1);
+    let model = Model::new(&expected);
+    let snap = guarded(|| observe(&ont)).map_err(|p| Failure { signature: "observe-panic/bulk".into(), message: p })?;
+    let e = Expect { model: &model, defaults: true, term_name: &ident, rec_name: &ident_rec };
+    let diffs = diff_model(&snap, &e, &[Group::Basic, Group::Closure, Group::Annot, Group::Ic, Group::Cats, Group::Problems]);
+    if let Some(d) = diffs.first() {
+        let kind: String = d.what.split(' ').next().unwrap_or("").chars().take(24).collect();
+        return fail(
+            format!("decoded-differs/v{v}/bulk/{kind}"),
+            format!("v{v} file with {n} terms decodes to something else than it describes: {}", diffs.iter().take(5).map(|d| d.what.clone()).collect::<Vec<_>>().join(" | ")),
+        );
+    }
+    drop(ont);
+    let mut cuts: std::collections::BTreeSet<usize> = std::collections::BTreeSet::new();
+    for o in section_offsets(&bytes, v) {
+        cuts.insert(o);
+        cuts.insert(o + 4);
+    }
+    for d in [1usize, 2, 4, 5, 8] {
+        cuts.insert(bytes.len() - d);
+    }
+    for cut in cuts.into_iter().filter(|c| *c < bytes.len()) {
+        if accepted(&bytes[..cut], stats) {
+            return fail(format!("truncated-file-accepted/v{v}/bulk"), format!("the first {cut} of {} bytes of a v{v} file with {n} terms are accepted as an ontology", bytes.len()));
+        }
+    }
+    let mut ext = bytes.clone();
+    ext.push(0);
+    if accepted(&ext, stats) {
+        return fail(format!("extended-file-accepted/v{v}/bulk"), format!("a v{v} file with {n} terms followed by one more byte is accepted"));
+    }
+    stats.label("bulk>65535-terms");
+    Ok(())
+}
+
 pub fn check(c: &Case, stats: &mut Stats) -> CheckResult {
     let v = c.version;
     ensure!((1..=3).contains(&v), "harness/bad-case", "version must be 1..=3");
@@ -271,12 +319,26 @@ impl Property for C08 {
         }
     }
     fn required_labels(&self, _tier: Tier) -> Vec<&'static str> {
-        vec!["nontrivial", "v1", "v2", "v3", "flags", "section>65535-bytes", "term-name>=247-bytes", "record-name>=247-bytes"]
+        vec!["nontrivial", "v1", "v2", "v3", "flags", "section>65535-bytes", "term-name>=247-bytes", "record-name>=247-bytes", "bulk>65535-terms"]
     }
     fn run_generated(&self, tier: Tier, seed: u64, n: u64, stats: &mut Stats) -> Option<(Value, Failure)> {
         run_typed(strategy(tier), seed, n, stats, check)
     }
     fn replay(&self, case: &Value, stats: &mut Stats) -> Result<CheckResult, String> {
+        if let Some(b) = case.get("bulk") {
+            let v: (u32, u32, u8, u8) = serde_json::from_value(b.clone()).map_err(|e| e.to_string())?;
+            stats.cases += 1;
+            return Ok(check_bulk(v.0, v.1, v.2, v.3, stats));
+        }
         replay_typed::<Case, _>(case, stats, check)
+    }
+    fn isolated_plans(&self, tier: Tier, seed: u64) -> Vec<Value> {
+        let mult = [7919u32, 104_729, 1_299_709][(seed % 3) as usize];
+        let mut plans = vec![(65_540u32, mult, 3u8, (seed % 4) as u8), (66_001, mult, 1, ((seed + 1) % 4) as u8)];
+        if tier == Tier::Thorough {
+            plans.push((70_000, mult, 2, 2));
+            plans.push((131_080, mult, 3, 3));
+        }
+        plans.into_iter().map(|p| json!({"bulk": p})).collect()
     }
 }
